@@ -14,4 +14,18 @@ PROPS = {
             'capacity > 0 (NewLogCache rejects others); indices < 2^62 in the tie (model is over unbounded N)',
         ],
     ),
+    'C06': dict(
+        props_file='Props/C06.v',
+        components=['c06'],
+        comp_names={6: 'node sequence (NewRaft + processRPC + electSelf on a stepper node)'},
+        rule='a real server booted by NewRaft from an enumerated durable image (3 configurations x 2 log shapes x 4 vote records, + no configuration) is fed '
+             'sequences of RequestVote / RequestPreVote / AppendEntries / electSelf / restart events through processRPC; the first event carries every '
+             'single-write failure and every crash cut between its durable writes, then probe votes follow; plus random longer sequences with failures and cuts anywhere. '
+             'Compared: response, ordered trace of every store/FSM call, full projected state after each event. Non-trivial = a vote was granted, or a crash cut / panic happened',
+        assumptions=[
+            'StableStore/LogStore calls are atomic and a failed call has no effect (harness MapStable/MapLogStore)',
+            'a failing SetUint64(CurrentTerm) panics (setCurrentTerm) - modelled as a crash followed by restart',
+            'protocol version 3; candidate identified by RPCHeader.Addr/ID',
+        ],
+    ),
 }
